@@ -1,4 +1,4 @@
-import LanceModel.C40.FuelLemmas
+import LanceModel.C40.MergeWSLemmas
 /-
 C40 — Arrow helper transformations preserve values.
 
@@ -138,6 +138,29 @@ theorem merge_spec (llen : Nat) (lnulls : Option Nulls) (ln : List String) (lc :
         ((logical (.struct llen lnulls ln lc)).getD i .null) ((logical (.struct rlen rnulls rn rc)).getD i .null)) :=
   logical_mergeBatch llen lnulls ln lc rlen rnulls rn rc m hwl hwr hul hur h
 
+/-- `RecordBatchExt::merge_with_schema`, field-by-field content: every row of the result is the row-wise `mwsRow` of the
+    two input rows (reference fields in schema order; a field found on neither side skipped; found on one side: that side's
+    value, NULL under a NULL struct row; struct fields found on both sides merged recursively; other fields from the left),
+    at every nesting depth, wherever `mwsRow` specifies the row (`some v`): everywhere except below a LIST-typed reference
+    field present on both sides (for those see `trimmed_rebased_spec`, `merge_with_schema_validity` and the harness oracle).
+    `uniq`: unique field names per struct. -/
+theorem merge_with_schema_spec (llen : Nat) (lnulls : Option Nulls) (ln : List String) (lc : List Arr)
+    (rlen : Nat) (rnulls : Option Nulls) (rn : List String) (rc : List Arr) (fn : List String) (ft : List Ty) (m : Arr)
+    (hwl : wf (.struct llen lnulls ln lc) = true) (hwr : wf (.struct rlen rnulls rn rc) = true)
+    (hul : uniq (.struct llen lnulls ln lc) = true) (hur : uniq (.struct rlen rnulls rn rc) = true)
+    (h : mergeWSBatch (.struct llen lnulls ln lc) (.struct rlen rnulls rn rc) fn ft = .ok m) :
+    m.len = llen ∧ ∀ i, i < llen → ∀ v,
+      mwsRow ln (tyOfCols lc) rn (tyOfCols rc) fn ft ((logical (.struct llen lnulls ln lc)).getD i .null)
+        ((logical (.struct rlen rnulls rn rc)).getD i .null) = some v →
+      (logical m).getD i .null = v := by
+  unfold mergeWSBatch at h
+  split at h
+  · cases h
+  · split at h
+    · cases h
+    · exact ⟨(mergeWS_validity 64 _ _ m fn ft h).1,
+        mergeWS_spec_le 64 64 (Nat.le_refl _) llen lnulls ln lc rlen rnulls rn rc fn ft m hwl hwr hul hur h⟩
+
 /-! ### fuel: the recursion depth of the model's `merge` / `merge_with_schema` is bounded by the nesting depth -/
 
 /-- with fuel above the nesting depth of the left batch, `mergeStruct` returns the same result for every larger fuel
@@ -209,6 +232,10 @@ example : (projectBatch exL ["s"] [.struct ["a"] [.int]]).isOk = true := by
 example : wf exL = true := by decide
 example : ∃ m, mergeStruct 64 exL exR = .ok m := ⟨_, rfl⟩
 example : ∃ m, mergeBatch exL exR = .ok m := ⟨_, rfl⟩
+/-- row 0 of the example above: left `s` NULL, right `s = {b: 3}`; the specified merged row is `{s: {b: 3, a: NULL}}` -/
+example : (mwsRow ["s"] [.struct ["a"] [.int]] ["s"] [.struct ["b"] [.int]] ["s"] [.struct ["b", "a"] [.int, .int]]
+    (.struct ["s"] [.null]) (.struct ["s"] [.struct ["b"] [.int 3]])).isSome = true := by
+  simp [mwsRow, rowOf, mwsVals, findKindTy, sameKind, Ty.isStruct, fieldV, lookupV, Value.isNull]
 example : depth exL + 1 ≤ 64 ∧ 2 * depth exL + 1 ≤ 64 := by decide
 example : wf exR = true ∧ uniq exL = true ∧ uniq exR = true := by decide
 example : ∃ m, mergeWS 64 exL exR ["s"] [.struct ["b", "a"] [.int, .int]] = .ok m := ⟨_, rfl⟩
